@@ -95,46 +95,72 @@ Proof. exact start_search_height_spec. Qed.
 (* "partial": stated for an honest peer (it answers the common block [cid] and delivers its blocks after it), the
    common block at or above the finalized height and, for fast sync, both tips within two rounds of it; peer
    selection and the common-block search rounds are covered by their own theorems, not composed in *)
-Theorem C19_honest_peer_converges_partial : forall valid rs cs n pre cid own blocks th r2,
+Theorem C19_honest_peer_converges_partial : forall valid finality rs cs ba n pre cid own blocks th r2,
   chain n = pre ++ cid :: own -> ~ In cid pre ->
-  (finalized n <= length pre)%nat -> (length own <= r2)%nat -> (length pre <= th)%nat -> (th - length pre <= r2)%nat ->
+  (finalized n <= length pre)%nat -> (forall c', (finality c' <= finalized n)%nat) ->
+  (length own <= r2)%nat -> (length pre <= th)%nat -> (th - length pre <= r2)%nat ->
   N.of_nat th < 4294967296 ->
   all_valid valid (pre ++ [cid]) blocks ->
-  fast_sync valid rs cs n (Some cid) blocks EndOk th r2 =
+  fast_sync valid finality rs cs ba n (Some cid) blocks EndOk th r2 =
     ({| chain := pre ++ cid :: blocks; temp := []; finalized := finalized n; banned := banned n |}, Synced) /\
-  block_sync valid n (Some cid) blocks EndOk =
+  block_sync valid finality n (Some cid) blocks EndOk =
     ({| chain := pre ++ cid :: blocks; temp := []; finalized := finalized n; banned := banned n |}, Synced).
 Proof.
   intros. split; [eapply honest_peer_converges_fast; eassumption|eapply honest_peer_converges_block; eassumption].
 Qed.
 
-(* CURRENT code (restoreBlocks deletes without saving, stale temp blocks cleared first): if blocks downloaded during fast
-   sync prove invalid, wherever the invalid block sits and whatever temp blocks earlier syncs left behind, the original
-   blocks are restored and the peer is banned *)
-Theorem C19_failed_fast_sync_restores_and_bans : forall valid n pre cid own good bad rest th r2,
+(* the stored finalized height is DYNAMIC in the model ([finality]: raised while blocks are applied, re-read by every
+   deletion).  "partial": if blocks downloaded during fast sync prove invalid, wherever the invalid block sits and whatever
+   temp blocks earlier syncs left behind, the original blocks are restored and the peer is banned — PROVIDED the valid blocks
+   applied before the invalid one did not raise the finalized height (hypothesis forall c', finality c' <= finalized n).
+   Without it the statement is false of the protocol itself: see C19_failed_fast_sync_finality_moved_refuted *)
+Theorem C19_failed_fast_sync_restores_and_bans_partial : forall valid finality n pre cid own good bad rest th r2,
   chain n = pre ++ cid :: own -> ~ In cid pre ->
-  (finalized n <= length pre)%nat -> (length own <= r2)%nat -> (length pre <= th)%nat -> (th - length pre <= r2)%nat ->
+  (finalized n <= length pre)%nat -> (forall c', (finality c' <= finalized n)%nat) ->
+  (length own <= r2)%nat -> (length pre <= th)%nat -> (th - length pre <= r2)%nat ->
   N.of_nat th < 4294967296 ->
   all_valid valid (pre ++ [cid]) good -> valid ((pre ++ [cid]) ++ good) bad = false ->
   all_valid valid (pre ++ [cid]) own ->
-  let '(n', o) := fast_sync valid false true n (Some cid) (good ++ bad :: rest) EndOk th r2 in
+  let '(n', o) := fast_sync valid finality false true true n (Some cid) (good ++ bad :: rest) EndOk th r2 in
   chain n' = chain n /\ banned n' = true /\ o = Failed.
 Proof. exact failed_fast_sync_restores_and_bans. Qed.
 
+(* valid blocks that FINALIZE a height above the common block, then an invalid one: the finalized blocks cannot be deleted,
+   the original blocks cannot come back (finalized blocks are irreversible, C04).  Before the repair the code returned the
+   error WITHOUT banning and left the own blocks in the temp table; now it bans and drops them, keeping the finalized prefix *)
+Theorem C19_failed_fast_sync_finality_moved_refuted :
+  exists valid finality n cid own blocks th r2,
+    chain n = [0] ++ own /\ cid = 0 /\ temp n = [] /\ all_valid valid [0] own /\
+    (let '(n', o) := fast_sync valid finality false true false n (Some cid) blocks EndOk th r2 in
+     chain n' <> chain n /\ banned n' = false /\ temp n' <> []) /\
+    (let '(n', o) := fast_sync valid finality false true true n (Some cid) blocks EndOk th r2 in
+     chain n' = [0; 11] /\ banned n' = true /\ temp n' = [] /\ finalized n' = 1%nat).
+Proof. exact failed_fast_sync_finality_moved_refuted. Qed.
+
+(* CURRENT code, no hypothesis on finality: whenever a delivered block that passed Validate is rejected by the processor
+   during a fast sync, the peer is banned — whether or not the original blocks could be restored *)
+Theorem C19_failed_fast_sync_always_bans : forall valid finality rs cs n cid hc blocks th r2,
+  index_of cid (chain n) = Some hc -> (finalized n <= hc)%nat ->
+  (r2 <? (length (chain n) - 1) - hc)%nat || far32 th hc r2 = false ->
+  snd (apply_all valid (firstn (S hc) (chain n)) blocks) = false ->
+  banned (fst (fast_sync valid finality rs cs true n (Some cid) blocks EndOk th r2)) = true.
+Proof. exact failed_fast_sync_always_bans. Qed.
+
 (* ORIGINAL code: only when the FIRST applied block is the invalid one and no temp block was left behind *)
-Theorem C19_failed_fast_sync_orig_first_block_case : forall valid n pre cid own bad rest th r2,
+Theorem C19_failed_fast_sync_orig_first_block_case : forall valid finality n pre cid own bad rest th r2,
   chain n = pre ++ cid :: own -> ~ In cid pre -> temp n = [] ->
-  (finalized n <= length pre)%nat -> (length own <= r2)%nat -> (length pre <= th)%nat -> (th - length pre <= r2)%nat ->
+  (finalized n <= length pre)%nat -> (forall c', (finality c' <= finalized n)%nat) ->
+  (length own <= r2)%nat -> (length pre <= th)%nat -> (th - length pre <= r2)%nat ->
   N.of_nat th < 4294967296 ->
   valid (pre ++ [cid]) bad = false -> all_valid valid (pre ++ [cid]) own ->
-  let '(n', o) := fast_sync valid true false n (Some cid) (bad :: rest) EndOk th r2 in
+  let '(n', o) := fast_sync valid finality true false false n (Some cid) (bad :: rest) EndOk th r2 in
   chain n' = chain n /\ banned n' = true /\ o = Failed.
 Proof. exact failed_fast_sync_orig_first_block_case. Qed.
 
 Theorem C19_failed_fast_sync_restores_orig_refuted :
   exists valid n cid own blocks th r2,
     chain n = [0] ++ own /\ cid = 0 /\ temp n = [] /\ all_valid valid [0] own /\
-    let '(n', o) := fast_sync valid true false n (Some cid) blocks EndOk th r2 in
+    let '(n', o) := fast_sync valid (fun _ => 0%nat) true false false n (Some cid) blocks EndOk th r2 in
     chain n' <> chain n /\ banned n' = false.
 Proof. exact failed_fast_sync_restores_orig_refuted. Qed.
 
@@ -142,28 +168,30 @@ Proof. exact failed_fast_sync_restores_orig_refuted. Qed.
 Theorem C19_failed_fast_sync_stale_temp_refuted :
   exists valid n cid own blocks th r2,
     chain n = [0; 5] ++ own /\ cid = 5 /\ all_valid valid [0; 5] own /\
-    let '(n', o) := fast_sync valid false false n (Some cid) blocks EndOk th r2 in
+    let '(n', o) := fast_sync valid (fun _ => 0%nat) false false false n (Some cid) blocks EndOk th r2 in
     chain n' <> chain n /\ banned n' = false.
 Proof. exact failed_fast_sync_stale_temp_refuted. Qed.
 
 (* the two-round test is uint32 arithmetic: a peer naming a common block ABOVE the height of the block it offered makes
    `block height - common height` wrap and the fast sync is abandoned with nothing touched *)
-Theorem C19_fast_sync_common_above_block_aborts : forall valid rs cs n cid hc blocks e th r2,
+Theorem C19_fast_sync_common_above_block_aborts : forall valid finality rs cs ba n cid hc blocks e th r2,
   index_of cid (chain n) = Some hc -> (finalized n <= hc)%nat -> (th < hc)%nat ->
   N.of_nat hc < 4294967296 -> N.of_nat r2 + N.of_nat (hc - th) < 4294967296 ->
-  fast_sync valid rs cs n (Some cid) blocks e th r2 = (n, Aborted).
+  fast_sync valid finality rs cs ba n (Some cid) blocks e th r2 = (n, Aborted).
 Proof. exact fast_sync_common_above_block_aborts. Qed.
 
 (* a truncated stream or a statelessly invalid block leaves a fast-syncing node's chain untouched *)
-Theorem C19_fast_sync_bad_stream_no_change : forall valid rs cs n common blocks e th r2, e <> EndOk ->
-  chain (fst (fast_sync valid rs cs n common blocks e th r2)) = chain n /\
-  snd (fast_sync valid rs cs n common blocks e th r2) <> Synced.
+Theorem C19_fast_sync_bad_stream_no_change : forall valid finality rs cs ba n common blocks e th r2, e <> EndOk ->
+  chain (fst (fast_sync valid finality rs cs ba n common blocks e th r2)) = chain n /\
+  snd (fast_sync valid finality rs cs ba n common blocks e th r2) <> Synced.
 Proof. exact fast_sync_bad_stream_no_change. Qed.
 
-(* no block at or below the finalized height is ever deleted, whatever the peer answers or serves *)
-Theorem C19_sync_never_deletes_finalized : forall valid rs cs n common blocks e th r2,
+(* whatever the peer answers or serves and however finality moves meanwhile: nothing at or below the finalized height the
+   node had before the sync is changed, and its stored finalized height only grows (deletions stop at the finalized height
+   in force at that moment: delete_till reads the node's current value) *)
+Theorem C19_sync_never_deletes_finalized : forall valid finality rs cs ba n common blocks e th r2,
   (finalized n < length (chain n))%nat ->
-  keeps n (fst (fast_sync valid rs cs n common blocks e th r2)) /\ keeps n (fst (block_sync valid n common blocks e)).
+  keeps n (fst (fast_sync valid finality rs cs ba n common blocks e th r2)) /\ keeps n (fst (block_sync valid finality n common blocks e)).
 Proof. intros. split; [apply fast_sync_keeps_finalized; assumption|apply block_sync_keeps_finalized; assumption]. Qed.
 
 (* ---------------------------------------------------------------- which mechanism (Syncer.Sync) *)
@@ -209,15 +237,16 @@ Proof. exact honest_download_delivers_suffix. Qed.
 (* honest peer with chain pre ++ cid :: suffix (any length), all its blocks valid: block sync, and fast sync within two
    rounds, end exactly on the peer's chain; the delivered blocks are no longer a hypothesis but the downloader's result
    against the handler *)
-Theorem C19_honest_sync_ends_on_peer_chain : forall valid rs cs n c pre cid own l tipid fuel th r2,
+Theorem C19_honest_sync_ends_on_peer_chain : forall valid finality rs cs ba n c pre cid own l tipid fuel th r2,
   g0 c = 0 -> ids c = pre ++ cid :: l ++ [tipid] -> ~ In tipid l ->
   Converge.chain n = pre ++ cid :: own -> ~ In cid pre -> (finalized n <= length pre)%nat ->
+  (forall c', (finality c' <= finalized n)%nat) ->
   all_valid valid (pre ++ [cid]) (l ++ [tipid]) -> (length l < fuel)%nat ->
   let '(delivered, e) := download (honest_resp c (length pre)) 0 fuel (length pre) (length pre + length l + 1) tipid [] in
-  block_sync valid n (Some cid) (map snd delivered) (ending_of e) =
+  block_sync valid finality n (Some cid) (map snd delivered) (ending_of e) =
     ({| Converge.chain := ids c; temp := []; finalized := finalized n; banned := banned n |}, Synced) /\
   ((length own <= r2)%nat -> (length pre <= th)%nat -> (th - length pre <= r2)%nat -> N.of_nat th < 4294967296 ->
-   fast_sync valid rs cs n (Some cid) (map snd delivered) (ending_of e) th r2 =
+   fast_sync valid finality rs cs ba n (Some cid) (map snd delivered) (ending_of e) th r2 =
     ({| Converge.chain := ids c; temp := []; finalized := finalized n; banned := banned n |}, Synced)).
 Proof. exact honest_sync_ends_on_peer_chain. Qed.
 
@@ -229,10 +258,11 @@ Theorem C19_common_search_not_below_finalized : forall c answer fin n h id,
 Proof. exact common_search_not_below_finalized. Qed.
 
 (* block sync never restores *)
-Theorem C19_block_sync_failure_shape : forall valid n pre cid own good bad rest e,
+Theorem C19_block_sync_failure_shape : forall valid finality n pre cid own good bad rest e,
   Converge.chain n = pre ++ cid :: own -> ~ In cid pre -> (finalized n <= length pre)%nat ->
+  (forall c', (finality c' <= finalized n)%nat) ->
   all_valid valid (pre ++ [cid]) good -> valid ((pre ++ [cid]) ++ good) bad = false ->
-  block_sync valid n (Some cid) (good ++ bad :: rest) e =
+  block_sync valid finality n (Some cid) (good ++ bad :: rest) e =
   ({| Converge.chain := pre ++ cid :: good; temp := save_from (S (length pre)) own (temp n); finalized := finalized n; banned := banned n |}, Failed).
 Proof. exact block_sync_failure_shape. Qed.
 
@@ -241,3 +271,12 @@ Example C19_ex_best : best_spec_b w_infos (Build_ni 10 5 1 1) = true /\ valid_re
 Proof. split; vm_compute; reflexivity. Qed.
 Example C19_ex_bfi : bfi (Build_chain 5 [50; 51; 52; 53]) (Some (51, true)) = BBlocks [(7, 52); (8, 53)].
 Proof. vm_compute. reflexivity. Qed.
+
+(* the responder used in the composition IS the handler model: on a well-formed chain *)
+Theorem C19_honest_resp_is_bfi : forall (c : Handlers.chain) i k x,
+  wf_chain c -> Handlers.index_of x (ids c) = Some (i + 103 * k)%nat ->
+  match bfi c (Some (x, true)) with
+  | BBlocks l => honest_resp c i k = Some (map to_nat_blk l)
+  | _ => False
+  end.
+Proof. exact honest_resp_is_bfi. Qed.
